@@ -421,6 +421,20 @@ func (c *Client) stepUnderFailure(op adapt.Op, got adapt.Outcome) []Diff {
 	if got.Class == adapt.ClsNotImpl {
 		return nil // the SDK v1 adapter has no BatchGetItem at all
 	}
+	if op.Kind == adapt.OpBatchWrite && got.Class == adapt.ClsValidation {
+		// a request that breaks the batch rules (more than 25 writes, a write request that is neither or both
+		// put and delete) is refused by the client-side input validation before the failure condition is
+		// consulted - as the SDK / the service do; the configured error is equally admissible
+		invalid := len(op.Batch) > 25 || len(op.Batch) == 0
+		for _, e := range op.Batch {
+			if (e.Put == nil) == (e.Del == nil) {
+				invalid = true
+			}
+		}
+		if invalid {
+			return nil
+		}
+	}
 	if op.Kind == adapt.OpBatchWrite && c.Fail == "internal_server" {
 		// every request must be reported unprocessed (none can have been applied while failing)
 		if got.Class != adapt.ClsOK {
